@@ -96,3 +96,15 @@ def lit(v):
             r = r[:-2]
         return r
     raise TypeError(v)
+
+
+def outcome_of_raw(fn):
+    """like outcome_of, but the value is handed back as it is"""
+    try:
+        return ('value', fn())
+    except MonitorAbort:
+        raise
+    except RecursionError as e:
+        return ('raised', 'RecursionError: ' + str(e)[:60])
+    except BaseException as e:  # noqa
+        return ('raised', f'{type(e).__name__}: {str(e)[:300]}')
